@@ -205,6 +205,9 @@ impl Exec for RingH {
     fn probe(&self) -> Option<StoreProbe> {
         Some(self.stack.probe())
     }
+    fn record_len(&self, key: &[u8]) -> Option<u64> {
+        self.stack.record_len(key)
+    }
     fn take_panics(&mut self) -> Vec<String> {
         std::mem::take(&mut self.panics)
     }
